@@ -387,6 +387,16 @@ INSERT INTO z SELECT i, i%%13, CASE i%%3 WHEN 0 THEN 'k'||(i%%5) WHEN 1 THEN 'K'
 			}
 			return st
 		}()},
+		{"empty-objects", []string{
+			`CREATE TABLE e (a, b)`,
+			`CREATE INDEX e_b ON e (b)`,
+			`CREATE TABLE ew (k PRIMARY KEY, v) WITHOUT ROWID`,
+			`CREATE TABLE emptied (id INTEGER PRIMARY KEY, v UNIQUE)`,
+			`INSERT INTO emptied VALUES (1, 'x'), (2, 'y'), (3, 'z')`,
+			`DELETE FROM emptied`,
+			`CREATE TABLE one (a)`,
+			`INSERT INTO one VALUES (NULL)`,
+		}},
 		{"alter-defaults", []string{
 			`CREATE TABLE t (id INTEGER PRIMARY KEY, v)`,
 			`INSERT INTO t VALUES (1, 'one'), (2, 'two')`,
@@ -502,6 +512,14 @@ func fwRun(r *ev.Run, which string) {
 	for _, ps := range sizes {
 		for _, sc := range scripts {
 			jobs = append(jobs, job{ps, sc})
+		}
+	}
+	if !r.Thorough() {
+		// the short scripts also with 64 KB pages (16-bit fields that store 65536 as 0)
+		for _, sc := range scripts {
+			if len(sc.Stmts) <= 14 {
+				jobs = append(jobs, job{65536, sc})
+			}
 		}
 	}
 	ev.Parallel(len(jobs), func(i int) {
